@@ -170,18 +170,25 @@ def gen_scenario(rng):
     """structured prefixes: the edits one save must turn into several operations at once"""
     big = [[1, 2], [2, 3], [3, 4], [9, 1]]
     r = rng.random()
-    persist = [rng.choice(['save', 'batch_save'])]
-    if r < 0.15:      # in-place change of an INNER collection of a nested collection column of a persisted instance
+    persist = [rng.choice(['save', 'batch_save', 'batch_reuse', 'batch_with_execute'])]
+    if r < 0.1:       # a stored list of >= 3 elements: an interior element replaced AND growth at head / tail, in one save
+        base = rng.choice([[1, 2, 3], [4, 5, 6, 7], [1, 2, 1], [3, 3, 3]])
+        return [['create', {'l': ['L', base], 'x': 1}]] + ([persist] if rng.random() < 0.5 else []) + [['mut', 'l', 'edit', rng.choice([1, 2, 3])], persist]
+    if r < 0.2:       # one BatchQuery object executed more than once, with non-idempotent statements (list appends) in it
+        how = rng.choice(['batch_reuse', 'batch_with_execute'])
+        return [['create', {'l': ['L', [1, 2]], 'x': 1}], ['mut', 'l', 'add', rng.choice([1, 2, 3])], [how],
+                ['mut', 'l', 'add', rng.choice([2, 9])], ['set', 'x', rng.choice(SCAL)], [rng.choice(['batch_reuse', 'save', 'batch_with_execute'])]]
+    if r < 0.28:      # in-place change of an INNER collection of a nested collection column of a persisted instance
         return [['create', {'ml': ['MN', [[1, [5]], [2, [3, 4]]]], 'x': rng.choice(SCAL)}]] + ([persist] if rng.random() < 0.3 else []) + \
                [['mut', 'ml', 'inner', rng.choice([1, 2])]] + ([['set', 'x', 7]] if rng.random() < 0.5 else []) + [rng.choice([['save'], ['update', {}], ['batch_save']])]
-    if r < 0.3:       # a regular column and a static column declared after it change in the same save of a persisted instance
+    if r < 0.4:       # a regular column and a static column declared after it change in the same save of a persisted instance
         return [['create', {'x': 1, 'st2': 1, 'st': rng.choice(SCAL)}], persist, ['set', 'x', rng.choice([5, -3])], ['set', 'st2', rng.choice([5, 0])]] + \
                ([['set', 'st', 0]] if rng.random() < 0.3 else []) + [[rng.choice(['save', 'batch_save'])]]
-    if r < 0.45:      # blind update whose collection operand happens to be empty, on a stored non-empty collection
+    if r < 0.5:       # blind update whose collection operand happens to be empty, on a stored non-empty collection
         a, op = rng.choice([('s', 'add'), ('s', 'remove'), ('l', 'append'), ('l', 'prepend')])
         return [['create', {'s': ['S', [1, 2]], 'l': ['L', [1, 2]], 'x': 1}],
                 ['qs_update', [[a, op, ['S', []] if a == 's' else ['L', []]]] + ([['x', None, 5]] if rng.random() < 0.5 else [])]]
-    if r < 0.6:       # keys dropped from two map columns in the same (possibly batched) save
+    if r < 0.65:      # keys dropped from two map columns in the same (possibly batched) save
         ks = rng.sample([1, 2, 3, 9], 2)
         return [['create', {'m': ['M', big], 'm2': ['M', big], 'x': rng.choice(SCAL)}],
                 ['mut', 'm', 'remove', ks[0]], ['mut', 'm2', 'remove', ks[1]]] + ([['mut', 'm', 'add', 5]] if rng.random() < 0.3 else []) + [persist]
@@ -210,14 +217,14 @@ def gen_history(rng, maxn=8):
             ops.append(['del', rng.choice(ATTRS)])
         elif r < 0.5:
             a = rng.choice(['s', 'l', 'm', 'm2', 'm', 'm2', 'l', 'ml', 'ml'])
-            how = rng.choice(['add', 'remove', 'remove', 'clear', 'grow'] + (['inner', 'inner', 'inner'] if a == 'ml' else []))
+            how = rng.choice(['add', 'remove', 'remove', 'clear', 'grow'] + (['inner', 'inner', 'inner'] if a == 'ml' else []) + (['edit', 'edit'] if a == 'l' else []))
             ops.append(['mut', a, how, rng.choice([1, 2, 3, 9])])
             if a in ('m', 'm2') and how == 'remove' and rng.random() < 0.6:
                 ops.append(['mut', 'm2' if a == 'm' else 'm', 'remove', rng.choice([1, 2, 3, 9])])   # keys dropped from both maps in one save
         elif r < 0.54:
             ops.append(['rekey', rng.choice([3, 4, 5, 6])])
         elif r < 0.64:
-            ops.append([rng.choice(['save', 'save', 'batch_save'])])
+            ops.append([rng.choice(['save', 'save', 'batch_save', 'batch_reuse', 'batch_with_execute'])])
         elif r < 0.8:
             ops.append(['update', dict((a, gen_attr_val(rng, a)) for a in rng.sample(ATTRS, rng.randint(0, 2)))])
         elif r < 0.84:
